@@ -39,6 +39,35 @@ Scalars == {"string","integer","float","decimal","boolean","null","email","uri",
 HasChar(t, S) == \E i \in 1..Len(t) : t[i] \in S
 KindOfNumber(t) == IF HasChar(t, {"."}) /\ ~HasChar(t, {"e","E"}) THEN "float"
                    ELSE IF Norm(t).frac = <<>> THEN "integer" ELSE "float"
+\* number texts at the edges of the machine types (int32, int64, uint64, float64 precision and range) and longer:
+\* the classification is a matter of the text, not of what a machine word can hold
+BigNumbers == <<
+   <<"9","2","2","3","3","7","2","0","3","6","8","5","4","7","7","5","8","0","7">>,
+   <<"9","2","2","3","3","7","2","0","3","6","8","5","4","7","7","5","8","0","8">>,
+   <<"-","9","2","2","3","3","7","2","0","3","6","8","5","4","7","7","5","8","0","8">>,
+   <<"-","9","2","2","3","3","7","2","0","3","6","8","5","4","7","7","5","8","0","9">>,
+   <<"1","8","4","4","6","7","4","4","0","7","3","7","0","9","5","5","1","6","1","5">>,
+   <<"1","8","4","4","6","7","4","4","0","7","3","7","0","9","5","5","1","6","1","6">>,
+   <<"2","1","4","7","4","8","3","6","4","7">>,
+   <<"2","1","4","7","4","8","3","6","4","8">>,
+   <<"-","2","1","4","7","4","8","3","6","4","9">>,
+   <<"4","2","9","4","9","6","7","2","9","6">>,
+   <<"1","2","3","4","5","6","7","8","9","0","1","2","3","4","5","6","7","8","9","0","1","2","3","4","5","6","7","8","9","0">>,
+   <<"-","1","2","3","4","5","6","7","8","9","0","1","2","3","4","5","6","7","8","9","0","1","2","3","4","5","6","7","8","9","0">>,
+   <<"1","2","3","4","5","6","7","8","9","0","1","2","3","4","5","6","7","8","9","0","1","2","3","4","5","6","7","8","9","0","1","2","3","4","5","6","7","8","9","0",".","5">>,
+   <<"9","0","0","7","1","9","9","2","5","4","7","4","0","9","9","3">>,
+   <<"1","e","1","9">>,
+   <<"1","E","2","0">>,
+   <<"9","2","2","3","3","7","2","0","3","6","8","5","4","7","7","5","8",".","0","7">>,
+   <<"1","e","4","0","0">>,
+   <<"1","e","-","4","0","0">>,
+   <<"1",".","5","e","4","0","0">>,
+   <<"1","0","0","0","0","0","0","0","0","0","0","0","0","0","0","0","0","0","0","0","0","e","-","2","0">>,
+   <<"1","2","3","4","5","6","7","8","9","0","1","2","3","4","5","6","7","8","9","0","e","-","1">>,
+   <<"0",".","0","0","0","0","0","0","0","0","0","0","0","0","0","0","0","0","0","0","0","0","0","0","0","0","0","0","0","0","1">>,
+   <<"9","9","9","9","9","9","9","9","9","9","9","9","9","9","9","9","9","9">>,
+   <<"1","0","0","0","0","0","0","0","0","0","0","0","0","0","0","0","0","0","0">>,
+   <<"9","9","9","9","9","9","9","9","9","9","9","9","9","9","9","9","9","9","9","9">> >>
 \* other literals: a text in double quotes is a string whatever it contains
 Literals == << <<"true", "boolean">>, <<"false", "boolean">>, <<"null", "null">>, <<"{", "object">>, <<"[", "array">>,
                <<"\"\"", "string">>, <<"\"a\"", "string">>, <<"\"a.b\"", "string">>, <<"\"1.5\"", "string">>,
@@ -82,5 +111,6 @@ EmitNumber == (ta = "none" /\ ctl \in Final) =>
 EmitVocab == (ta = "none" /\ txt = <<>>) =>
               PrintT(ToJson([kind |-> "vocab", types |-> Types, near |-> NearMisses, scalars |-> Scalars,
                              jsonTypes |-> JsonTypeNames, literals |-> Literals, strings |-> StringLiterals,
+                             bignumbers |-> [i \in 1..Len(BigNumbers) |-> [text |-> BigNumbers[i], expect |-> KindOfNumber(BigNumbers[i])]],
                              tokens |-> [t \in Types |-> TokenOf(t)]]))
 ===============================================================================
